@@ -12,6 +12,7 @@ import Mathlib.Tactic.NormNum
 import Mathlib.Analysis.SpecialFunctions.Trigonometric.Basic
 import Mathlib.Analysis.SpecialFunctions.Trigonometric.Deriv
 import Mathlib.Topology.Order.IntermediateValue
+import Mathlib.Analysis.SpecialFunctions.Trigonometric.DerivHyp
 import Mathlib.Topology.Algebra.Polynomial
 
 namespace Verif.C12
@@ -1083,5 +1084,66 @@ theorem calcCubicRootVec_pointwise
   cases RealLike.le (0.0 : α) (disc (depP t.1 t.2.1) (depQ t.1 t.2.1 t.2.2)) <;> simp
 
 end
+
+
+/-! ### eFJC / tWLC: the guards and masks around the published closed forms -/
+
+theorem twlcG_real (f g0 g1 Fc : ℝ) : twlcG f g0 g1 Fc = g0 + g1 * max f Fc := by
+  simp only [twlcG, RealLike.lt, RealLike.le]
+  by_cases h : f < Fc
+  · simp [h, max_eq_right h.le]
+  · have h' : Fc ≤ f := not_lt.mp h
+    simp [h, h']
+
+theorem twlcDistance_real (f Lp Lc St C g0 g1 Fc kT : ℝ) :
+    twlcDistance f Lp Lc St C g0 g1 Fc kT =
+      Lc * (1 - 1 / 2 * √(kT / (f * Lp)) + C / (-(g0 + g1 * max f Fc) ^ 2 + St * C) * f) := by
+  simp only [twlcDistance, twlcG_real, RealLike.sqrt]
+  have e1 : (1.0 : ℝ) = 1 := by norm_num
+  have e2 : (2.0 : ℝ) = 2 := by norm_num
+  rw [e1, e2]
+  ring
+
+theorem coth_real (x : ℝ) : coth x = if |x| < 500 then Real.cosh x / Real.sinh x else 1 := by
+  simp only [coth, RealLike.lt, RealLike.abs, Ops.cosh, Ops.sinh]
+  norm_num
+
+/-- beyond the guard the hyperbolic cotangent differs from 1 by less than `2/(e¹⁰⁰⁰ - 1)` -/
+theorem coth_guard_error_aux (x : ℝ) (hx : 0 < x) :
+    |coth x - Real.cosh x / Real.sinh x| ≤ 2 / (Real.exp 1000 - 1) := by
+  rw [coth_real]
+  have hE : 1 < Real.exp 1000 := by
+    have := Real.add_one_lt_exp (show (1000 : ℝ) ≠ 0 by norm_num)
+    linarith
+  by_cases h : |x| < 500
+  · rw [if_pos h, sub_self, abs_zero]
+    have : 0 < Real.exp 1000 - 1 := by linarith
+    positivity
+  · rw [if_neg h]
+    have hx5 : 500 ≤ x := by
+      rw [abs_of_pos hx] at h; exact not_lt.mp h
+    have hs : 0 < Real.sinh x := Real.sinh_pos_iff.mpr hx
+    have hdiff : 1 - Real.cosh x / Real.sinh x = -(Real.exp (-x) / Real.sinh x) := by
+      have := Real.cosh_sub_sinh x
+      field_simp
+      linarith
+    rw [hdiff, abs_neg, abs_of_pos (div_pos (Real.exp_pos _) hs)]
+    -- exp(-x)/sinh x = 2/(exp(2x) - 1)
+    have hsinh : Real.sinh x = (Real.exp x - Real.exp (-x)) / 2 := Real.sinh_eq x
+    have hmul : Real.exp x * Real.exp (-x) = 1 := by rw [← Real.exp_add]; simp
+    have h2x : Real.exp 1000 ≤ Real.exp x * Real.exp x := by
+      rw [← Real.exp_add]; apply Real.exp_le_exp.mpr; linarith
+    have hen : 0 < Real.exp (-x) := Real.exp_pos _
+    have hep : 0 < Real.exp x := Real.exp_pos _
+    have hden : 0 < Real.exp 1000 - 1 := by linarith
+    rw [div_le_div_iff₀ hs hden, hsinh]
+    -- exp(-x) (E - 1) ≤ 2 (exp x - exp(-x))/2 = exp x - exp(-x)
+    have : Real.exp (-x) * Real.exp 1000 ≤ Real.exp x := by
+      calc Real.exp (-x) * Real.exp 1000 ≤ Real.exp (-x) * (Real.exp x * Real.exp x) :=
+            mul_le_mul_of_nonneg_left h2x hen.le
+        _ = (Real.exp x * Real.exp (-x)) * Real.exp x := by ring
+        _ = Real.exp x := by rw [hmul, one_mul]
+    nlinarith
+
 
 end Verif.C12
